@@ -1,11 +1,17 @@
 (* C34 — Utility containers behave as their abstract models.
    This file contains only property statements, closed by `exact`. *)
-From Coq Require Import NArith List Bool Sorted.
-From PL.C34 Require Import BitVectorModel BitVectorProofs.
+From Coq Require Import Arith NArith List Bool Sorted.
+From PL.C34 Require BitVectorModel BitVectorProofs OrderedSetModel OrderedSetProofs UHeapModel UHeapProofs.
 Import ListNotations.
+
+(* ====================================================================== *)
+(* BitVector                                                               *)
+(* ====================================================================== *)
+Module BV.
+Import BitVectorModel BitVectorProofs.
 Open Scope N_scope.
 
-(* BitVector: every register of every state reachable by any history of
+(* every register of every state reachable by any history of
    add / & / | / &= / |= denotes exactly the set the reference interpreter
    computes (membership for every index, no bound on indices or history). *)
 Theorem C34_bv_refines : forall ops, refines (bv_run bv_iand ops) (a_run ops).
@@ -33,7 +39,188 @@ Theorem C34_bv_iter_ascending : forall s, StronglySorted N.lt (bv_iter s).
 Proof. exact iter_sorted. Qed.
 Print Assumptions C34_bv_iter_ascending.
 
+(* __len__ (popcount of every block) is the number of members, for every vector whose
+   blocks are 32-bit (blocks_ok s := Forall (fun b => b < 2^32) s) ... *)
+Theorem C34_bv_len : forall s, blocks_ok s -> bv_len s = N.of_nat (length (bv_iter s)).
+Proof. exact len_iter. Qed.
+Print Assumptions C34_bv_len.
+
+(* ... and __bool__ is non-emptiness ... *)
+Theorem C34_bv_bool : forall s, blocks_ok s -> (bv_bool s = true <-> exists x, bv_contains s x = true).
+Proof. exact bool_contains. Qed.
+Print Assumptions C34_bv_bool.
+
+(* ... and every vector reachable from the empty ones by any history has 32-bit blocks, so: *)
+Theorem C34_bv_blocks_ok : forall ops, Forall blocks_ok (bv_run bv_iand ops).
+Proof. exact run_ok. Qed.
+Print Assumptions C34_bv_blocks_ok.
+
+Theorem C34_bv_run_len : forall ops r,
+  bv_len (getr (bv_run bv_iand ops) r) = N.of_nat (length (bv_iter (getr (bv_run bv_iand ops) r))).
+Proof. exact run_len. Qed.
+Print Assumptions C34_bv_run_len.
+
+Theorem C34_bv_run_bool : forall ops r,
+  bv_bool (getr (bv_run bv_iand ops) r) = true <-> exists x, bv_contains (getr (bv_run bv_iand ops) r) x = true.
+Proof. exact run_bool. Qed.
+Print Assumptions C34_bv_run_bool.
+
 (* non-vacuity: a concrete multi-block history *)
 Example C34_bv_example :
-  bv_iter (getr (bv_run bv_iand [OAdd 0 3; OAdd 0 70; OAdd 1 70; OAdd 1 5; OOr 2 0 1; OIand 2 1]) 2) = [5; 70].
+  bv_iter (getr (bv_run bv_iand [OAdd 0 3; OAdd 0 70; OAdd 1 70; OAdd 1 5; OOr 2 0 1; OIand 2 1]) 2) = [5; 70]
+  /\ bv_len (getr (bv_run bv_iand [OAdd 0 3; OAdd 0 70; OAdd 1 70; OAdd 1 5; OOr 2 0 1; OIand 2 1]) 2) = 2.
+Proof. vm_compute. split; reflexivity. Qed.
+End BV.
+
+(* ====================================================================== *)
+(* OrderedSet                                                              *)
+(* ====================================================================== *)
+Module OS.
+Import OrderedSetModel OrderedSetProofs.
+
+(* For EVERY history of add / discard / pop(last) / in / |= / | / & / - / -= / &= / == /
+   OrderedSet(iterable) over any number of set objects (aliased operands included):
+   - no loop of the pointer model runs out of fuel (the run is `Some`),
+   - every return value equals the one of the list specification (srun),
+   - walking the `next` ring gives the specification list (duplicate-free, first-insertion
+     order), walking the `prev` ring gives its reverse, __len__ its length,
+   - __contains__ is list membership,
+   - the insertion order of the dict self.map is the same list. *)
+Theorem C34_oset_refines : forall ops,
+  exists rs, orun ops = Some (rs, snd (srun ops)) /\
+             map oset_obs rs = map spec_obs (fst (srun ops)) /\
+             (forall r k, oset_contains (ogetr rs r) k = mem k (sgetr (fst (srun ops)) r)) /\
+             map oset_mapkeys rs = fst (srun ops).
+Proof. exact oset_run_refines. Qed.
+Print Assumptions C34_oset_refines.
+
+(* the specification lists never contain a key twice *)
+Theorem C34_oset_spec_nodup : forall ops, Forall (@NoDup key) (fst (srun ops)).
+Proof. exact spec_run_nodup. Qed.
+Print Assumptions C34_oset_spec_nodup.
+
+(* the specification is a set ... *)
+Theorem C34_oset_spec_add : forall l k x, In x (s_add l k) <-> x = k \/ In x l.
+Proof. exact s_add_in. Qed.
+Print Assumptions C34_oset_spec_add.
+Theorem C34_oset_spec_discard : forall l k x, In x (s_discard l k) <-> x <> k /\ In x l.
+Proof. exact s_discard_in. Qed.
+Print Assumptions C34_oset_spec_discard.
+Theorem C34_oset_spec_union : forall a b x, In x (s_union a b) <-> In x a \/ In x b.
+Proof. exact s_union_in. Qed.
+Print Assumptions C34_oset_spec_union.
+Theorem C34_oset_spec_inter : forall a b x, In x (s_inter_other_order a b) <-> In x a /\ In x b.
+Proof. exact s_inter_other_order_in. Qed.
+Print Assumptions C34_oset_spec_inter.
+Theorem C34_oset_spec_iand : forall a b x, In x (s_inter a b) <-> In x a /\ In x b.
+Proof. exact s_inter_in. Qed.
+Print Assumptions C34_oset_spec_iand.
+Theorem C34_oset_spec_diff : forall a b x, In x (s_diff a b) <-> In x a /\ ~ In x b.
+Proof. exact s_diff_in. Qed.
+Print Assumptions C34_oset_spec_diff.
+
+(* ... kept in first-insertion order: re-adding does not move, discard + add moves to the end *)
+Theorem C34_oset_spec_readd : forall l k, In k l -> s_add l k = l.
+Proof. exact s_add_existing. Qed.
+Print Assumptions C34_oset_spec_readd.
+Theorem C34_oset_spec_add_new : forall l k, ~ In k l -> s_add l k = l ++ [k].
+Proof. exact s_add_new. Qed.
+Print Assumptions C34_oset_spec_add_new.
+Theorem C34_oset_spec_discard_add : forall l k, s_add (s_discard l k) k = s_discard l k ++ [k].
+Proof. exact s_readd_moves_to_end. Qed.
+Print Assumptions C34_oset_spec_discard_add.
+
+(* single operations on any state satisfying the ring invariant *)
+Theorem C34_oset_add : forall s k, inv s ->
+  inv (oset_add s k) /\ oset_iter (oset_add s k) = Some (s_add (keys s) k).
+Proof. exact add_iter_spec. Qed.
+Print Assumptions C34_oset_add.
+Theorem C34_oset_discard : forall s k, inv s ->
+  inv (oset_discard s k) /\ oset_iter (oset_discard s k) = Some (s_discard (keys s) k).
+Proof. exact discard_iter_spec. Qed.
+Print Assumptions C34_oset_discard.
+
+(* non-vacuity: add, re-add, discard+add, pop at both ends, `a & b` ordered like b, aliasing *)
+Example C34_oset_example :
+  orun [OAdd 0 5%N; OAdd 0 3%N; OAdd 0 5%N; OAdd 0 9%N; ODiscard 0 5%N; OAdd 0 5%N;
+        OFromList 1 [5%N; 7%N; 3%N; 5%N]; OAnd 2 0 1; OPop 0 false; OPop 1 true; OIor 0 0; OIsub 1 1; OPop 1 true]
+  = option_map (fun rs => (rs, snd (srun [OAdd 0 5%N; OAdd 0 3%N; OAdd 0 5%N; OAdd 0 9%N; ODiscard 0 5%N; OAdd 0 5%N;
+        OFromList 1 [5%N; 7%N; 3%N; 5%N]; OAnd 2 0 1; OPop 0 false; OPop 1 true; OIor 0 0; OIsub 1 1; OPop 1 true])))
+      (option_map fst (orun [OAdd 0 5%N; OAdd 0 3%N; OAdd 0 5%N; OAdd 0 9%N; ODiscard 0 5%N; OAdd 0 5%N;
+        OFromList 1 [5%N; 7%N; 3%N; 5%N]; OAnd 2 0 1; OPop 0 false; OPop 1 true; OIor 0 0; OIsub 1 1; OPop 1 true]))
+  /\ srun [OAdd 0 5%N; OAdd 0 3%N; OAdd 0 5%N; OAdd 0 9%N; ODiscard 0 5%N; OAdd 0 5%N;
+        OFromList 1 [5%N; 7%N; 3%N; 5%N]; OAnd 2 0 1; OPop 0 false; OPop 1 true; OIor 0 0; OIsub 1 1; OPop 1 true]
+     = ([[9%N; 5%N]; []; [5%N; 3%N]],
+        [RNone; RNone; RNone; RNone; RNone; RNone; RNone; RNone; RKey 3%N; RKey 3%N; RNone; RNone; RKeyError]).
+Proof. vm_compute. split; reflexivity. Qed.
+End OS.
+
+(* ====================================================================== *)
+(* UHeap                                                                   *)
+(* ====================================================================== *)
+Module UH.
+Import UHeapModel UHeapProofs.
+
+(* wf h      : _index is exactly the inverse of the item column of _heap
+               (forall x q, ix h x = Some q <-> q < len /\ item at q = x)
+   ordered h : every non-root entry has a key >= the key of its parent ((j-1)/2). *)
+
+(* For EVERY history of push (with any key per call) / pop / pop_with_key / peek / len from the
+   empty heap: swim/sink never run out of fuel and never index out of range (`Some`), the final
+   state is index-consistent and heap-ordered, and the produced answers are accepted step by
+   step by the finite-map specification sp_step: push answers `item was absent` and (re)binds the
+   key; pop / pop_with_key / peek answer an item whose bound key is minimal among all bound keys
+   (pop removes exactly that binding); len is the number of bindings; pop/peek on empty assert. *)
+Theorem C34_heap_inv : forall ops,
+  exists h outs, urun ops = Some (h, outs) /\ wf h /\ ordered h /\ sp_accepts [] ops outs = true.
+Proof. exact run_ok. Qed.
+Print Assumptions C34_heap_inv.
+
+(* pop returns an entry of minimal key and removes exactly it *)
+Theorem C34_heap_pop_min : forall h, wf h -> ordered h -> hlen h > 0 ->
+  exists h' k x, uheap_pop_with_key h = Some (h', (k, x)) /\
+    In (k, x) (hp h) /\ (forall k' x', In (k', x') (hp h) -> (k <= k')%N) /\
+    wf h' /\ ordered h' /\ S (hlen h') = hlen h /\
+    (forall e, In e (hp h') <-> In e (hp h) /\ snd e <> x).
+Proof. exact pop_ok. Qed.
+Print Assumptions C34_heap_pop_min.
+
+(* popping until empty yields all keys in non-decreasing order *)
+Theorem C34_heap_sorted_drain : forall n h, wf h -> ordered h -> hlen h = n ->
+  exists ks, drain n h = Some ks /\ length ks = n /\ StronglySorted N.le ks /\
+             forall k, In k ks -> exists x, In (k, x) (hp h).
+Proof. exact drain_ok. Qed.
+Print Assumptions C34_heap_sorted_drain.
+
+(* push of an item that is present only changes its key (and answers False) *)
+Theorem C34_heap_update : forall h it key index, wf h -> ordered h -> ix h it = Some index ->
+  exists h', uheap_push h it key = Some (h', false) /\ wf h' /\ ordered h' /\
+             hlen h' = hlen h /\
+             (forall e, In e (hp h') <-> e = (key, it) \/ (In e (hp h) /\ snd e <> it)).
+Proof. exact push_upd_ok. Qed.
+Print Assumptions C34_heap_update.
+
+(* push of an absent item inserts it (and answers True) *)
+Theorem C34_heap_insert : forall h it key, wf h -> ordered h -> ix h it = None ->
+  exists h', uheap_push h it key = Some (h', true) /\ wf h' /\ ordered h' /\
+             hlen h' = S (hlen h) /\
+             (forall e, In e (hp h') <-> e = (key, it) \/ (In e (hp h) /\ snd e <> it)).
+Proof. exact push_new_ok. Qed.
+Print Assumptions C34_heap_insert.
+
+(* under wf an item has at most one entry, and ix is None exactly for absent items *)
+Theorem C34_heap_entry_unique : forall h k k' x, wf h -> In (k, x) (hp h) -> In (k', x) (hp h) -> k = k'.
+Proof. exact entry_unique. Qed.
+Print Assumptions C34_heap_entry_unique.
+Theorem C34_heap_index_none : forall h x, wf h -> (ix h x = None <-> forall k, ~ In (k, x) (hp h)).
+Proof. exact ix_none. Qed.
+Print Assumptions C34_heap_index_none.
+
+(* non-vacuity: inserts, a key decrease (swim), a key increase (sink), pops *)
+Example C34_heap_example :
+  option_map snd (urun [UPush 1 50; UPush 2 30; UPush 3 40; UPush 4 10; UPush 1 5; UPush 4 60; ULenOp;
+                        UPopKey; UPopKey; UPeek; UPop; UPop; UPop]%N)
+  = Some [UBool true; UBool true; UBool true; UBool true; UBool false; UBool false; ULen 4;
+          UPair 5 1; UPair 30 2; UItem 3; UItem 3; UItem 4; UAssert]%N.
 Proof. vm_compute. reflexivity. Qed.
+End UH.
